@@ -176,10 +176,14 @@ def check_fiber(case, rec, spec, req, active):
         raise Violation("upper-active", f"upper coordinates {got.coords} lie outside the upper fiber's active range "
                         f"({ua0}, {ua1}); parent active=({a0},{a1}) request={req}")
     for (b, (lo, hi), elems), lower in zip(want, got.payloads):
-        if lower.coords != [c for c, _ in elems]:
-            raise Violation("partition-elems", f"partition {b} holds coordinates {lower.coords}, expected "
-                            f"{[c for c, _ in elems]}; fiber={spec['tree']} active=({a0},{a1}) request={req}")
-        for (c, i), p in zip(elems, lower.payloads):
+        # the property speaks about the non-empty elements; whether an empty element of the original is
+        # carried along into a partition's storage is not specified
+        lc, lp = nonempty(lower, d, default)
+        if lc != [c for c, _ in elems]:
+            raise Violation("partition-elems", f"partition {b} holds non-empty coordinates {lc} (stored "
+                            f"{lower.coords}), expected {[c for c, _ in elems]}; fiber={spec['tree']} "
+                            f"active=({a0},{a1}) request={req}")
+        for (c, i), p in zip(elems, lp):
             orig = spec["tree"][i][1]
             if d == 1:
                 if Payload.get(p) != orig or not isinstance(p, Payload):
@@ -198,6 +202,16 @@ def check_fiber(case, rec, spec, req, active):
         if seen != exp:
             raise Violation("lossless", f"halo-free split covers {seen}, active non-empty elements are {exp}")
     return want, got
+
+
+def nonempty(fiber, d, default):
+    """coordinates and payloads of the elements of `fiber` (d levels deep) that are not empty"""
+    cs, ps = [], []
+    for c, p in zip(fiber.coords, fiber.payloads):
+        if (Payload.get(p) != default) if d == 1 else bool(observe.content_of(p, d - 1, default)):
+            cs.append(c)
+            ps.append(p)
+    return cs, ps
 
 
 def classify(rec, want, req, spec, d, default, extra=""):
@@ -226,6 +240,10 @@ def check(case, rec):
             # re-split every partition: partitions of partitions tile the original
             req2 = case["req2"]
             for (b, (lo, hi), elems), lower in zip(want, got.payloads):
+                if len(lower.coords) != len(elems) and req2["kind"] not in ("uniform", "nonuniform", "div"):
+                    # empty elements were carried along: position-space chunks of this partition are
+                    # not determined by the property
+                    continue
                 pres2 = [(c, i) for c, i in elems]
                 n2 = norm_req(req2, shape[0], len(lower.coords))
                 w2 = split_model(pres2, n2["kind"], n2["param"], lo, hi, n2["pre"], n2["post"], n2["relative"])
@@ -237,7 +255,7 @@ def check(case, rec):
                     raise Violation("resplit-upper", f"re-split of partition {b} (active {lo},{hi}) gives upper "
                                     f"coordinates {g2.coords}, expected {[bb for bb, _, _ in w2]}; request={req2}")
                 for (bb, rng, el2), l2 in zip(w2, g2.payloads):
-                    if l2.coords != [c for c, _ in el2] or l2.getActive() != rng:
+                    if nonempty(l2, d, default)[0] != [c for c, _ in el2] or l2.getActive() != rng:
                         raise Violation("resplit-elems", f"re-split partition {b}/{bb}: coords {l2.coords} active "
                                         f"{l2.getActive()}, expected {[c for c, _ in el2]} {rng}")
             rec.cls("resplit")
